@@ -1,6 +1,7 @@
 // C10 — format-version gate.  K: FormatVersion ordering laws (all 32-bit triples).  S: File::open / FileHDF5 constructor /
 // checkHeader on the HDF5 model with a symbolic header (format string, version triple, id presence), all modes, Force on/off.
 #include "vh.hpp"
+#include "h5model.h"
 #include <nix/Version.hpp>
 #include "hdf5/FileHDF5.hpp"
 #include "hdf5/h5x/H5Group.hpp"
@@ -82,4 +83,10 @@ extern "C" void vh_c10_gate() {
     } catch (const std::exception &) { opened = false; }
     if (opened) nixsym_reach("opened"); else nixsym_reach("refused");
     nixsym_assert(opened == expect_open, "file opens exactly when the format/version gate says so (or Force)");
+    // the decision does not depend on what was tried before: an attempt, refused or accepted-and-closed, leaves nothing of the file open,
+    // and a forced read-write open afterwards gets through
+    nixsym_assert(h5m_open_ids(fn, 1) == 0 && !h5m_file_is_open(fn), "an open attempt (refused, or accepted and closed) left an HDF5 identifier of the file open");
+    bool second = false;
+    try { File g = File::open(fn, FileMode::ReadWrite, "hdf5", Compression::None, OpenFlags::Force); second = g.isOpen(); g.close(); } catch (const std::exception &) { second = false; }
+    nixsym_assert(second, "Force bypasses the version check whatever was attempted on the file before");
 }
